@@ -103,6 +103,13 @@ IsSpec(e, r, reg) ==
   IF IsNil(r) THEN IsNil(e)
   ELSE ~IsNil(e) /\ \E i \in 1..Len(VisNodes(e)) : Equiv(VisNodes(e)[i], r, reg)
 
+\* The match of e against r rests on Is methods only: no visible layer of e has
+\* r's mark.  Such a match cannot survive where the layer's type is not
+\* reconstituted (an opaque value has no methods), C02.
+OnlyViaMethod(e, r, reg) ==
+  /\ ~IsNil(e) /\ ~IsNil(r)
+  /\ \A i \in 1..Len(VisNodes(e)) : MarkOf(VisNodes(e)[i], reg) # MarkOf(r, reg)
+
 B2S(b) == IF b THEN "T" ELSE "F"
 
 \* IsAny(e, r1..rn) is the disjunction
